@@ -55,6 +55,15 @@ TYPES += [
     ("uclchem", "PHOTON", "ucl_photon", "PHOTON", ["H"], ["H"], ""),
     ("uclchem", "CRPHOT", "ucl_crphot", "CRPHOT", ["H"], ["H"], ""),
     ("uclchem", "PHOTON", "ucl_photon_co", "PHOTON", ["CO"], ["CO"], "CO"),
+    # species whose names are sub-/super-strings of the specially treated ones must get the plain law
+    ("uclchem", "PHOTON", "ucl_photon", "PHOTON", ["C"], ["C"], ""),
+    ("uclchem", "PHOTON", "ucl_photon", "PHOTON", ["O"], ["O"], ""),
+    ("uclchem", "PHOTON", "ucl_photon", "PHOTON", ["CO2"], ["CO2"], ""),
+    ("leeds", 4, "leeds_photon", "PHOTON", ["C"], ["C"], ""),
+    ("leeds", 4, "leeds_photon", "PHOTON", ["N"], ["N"], ""),
+    ("leeds", 4, "leeds_photon", "PHOTON", ["CO2"], ["CO2"], ""),
+    ("leeds", 12, "leeds_photon", "PHOTON", ["GC"], ["GC"], ""),
+    ("leeds", 12, "leeds_photon", "PHOTON", ["GCO2"], ["GCO2"], ""),
 ]
 for code, law, marker in [(100, "twobody", None), (101, "cosmicray", "CR"), (102, "photon", "PHOTON"), (110, "ionpol1", None), (111, "ionpol2", None), (120, "crphot", "CRPHOT"), (1000, "zero", None)]:
     TYPES.append(("naunet", code, law, marker, ["H"] if marker else ["H", "H2"], ["H2", "H"], ""))
